@@ -13,7 +13,7 @@
    history this machine accepts is reproduced, observation for observation and
    without a panic, by the implementation machine Machine.run_case. *)
 From Coq Require Import NArith ZArith List Bool.
-From V Require Import Base.Res Base.Word Spec.Compress Spec.Tree Spec.Blake3 Model.RsXof Model.RsIo Model.Machine Proofs.IoP.
+From V Require Import Base.Res Base.Word Spec.Compress Spec.Tree Spec.Blake3 Model.RsXof Model.RsIo Model.Machine.
 Import ListNotations.
 Open Scope N_scope.
 
@@ -73,7 +73,7 @@ Definition sstep (m : mmode) (st : sstate) (o : op) : option (sstate * list obs)
       | None => None end
   | OpUpdateReader i data script =>
       (* update_reader with a scripted reader: the hasher absorbs exactly the bytes the reader yielded before the first
-         hard error or end of file (IoP.delivered: Interrupted retried, short reads, Ok(0) = EOF) *)
+         hard error or end of file (delivered: Interrupted retried, short reads, Ok(0) = EOF) *)
       match snth (ss_h st) i with
       | Some x0 =>
           if (si_off x0 =? 0) && (len (si_bytes x0 ++ data) <? 2 ^ 64) then
